@@ -2,6 +2,10 @@
 """Regenerates the detection table of DESIGN.md §7 from seeded/*/meta.json."""
 import glob, json, os, re
 ROOT = os.path.dirname(os.path.dirname(os.path.abspath(__file__)))
+# round-1 changes that the checks of the time missed (measured before meta.json kept a history)
+R1_MISSED = {"C04-1"}
+# round-1 changes for which a miss was predicted from the description and the check was strengthened before the first measurement
+R1_PRE = {"C06-2", "C09-2", "C12-1", "C13-2", "C14-1", "C14-2", "C15-1", "C17-2"}
 rows = []
 for f in sorted(glob.glob(os.path.join(ROOT, "seeded", "*", "meta.json"))):
     m = json.load(open(f))
@@ -19,8 +23,14 @@ for f in sorted(glob.glob(os.path.join(ROOT, "seeded", "*", "meta.json"))):
     kinds = []
     for c in caught:
         kinds += (m.get("checks", {}).get(c, {}).get("violation_kinds") or [])[:2]
-    rows.append("| %s | %s | %s | %s |" % (m["id"], what.replace("|", "/"), ", ".join(caught) if caught else "**not caught**", ", ".join(sorted(set(kinds)))[:80]))
-table = ["| change | what it does | caught by (quick tier) | violation kinds |", "|---|---|---|---|"] + rows
+    ms = m.get("measurements", [])
+    first = "caught" if (not ms or ms[0].get("caught_by")) else "missed, then checks strengthened"
+    if m["id"] in R1_MISSED:
+        first = "missed, then checks strengthened"
+    if m["id"] in R1_PRE:
+        first = "miss predicted from its description; check strengthened before measuring"
+    rows.append("| %s | %s | %s | %s | %s |" % (m["id"], what.replace("|", "/"), m.get("needs_to_manifest", "").replace("|", "/")[:160], first, ", ".join(caught) if caught else "**not caught**"))
+table = ["| change | what it does | needs | first measurement | caught by now (quick tier) |", "|---|---|---|---|---|"] + rows
 d = open(os.path.join(ROOT, "DESIGN.md")).read()
 d = re.sub(r"(<!-- DETECTION-TABLE-BEGIN -->\n).*?(<!-- DETECTION-TABLE-END -->)", lambda m: m.group(1) + "\n".join(table) + "\n" + m.group(2), d, flags=re.S)
 open(os.path.join(ROOT, "DESIGN.md"), "w").write(d)
